@@ -14,6 +14,7 @@ mod refmodel2;
 mod lockstep;
 mod single;
 mod supervise;
+mod fuzzrun;
 mod envelope;
 mod spec;
 mod footprint;
@@ -125,6 +126,22 @@ fn main() {
     }
     if args[2] == "--replay" {
         let file = args.get(3).expect("--replay FILE");
+        // a libFuzzer artifact (saved as fuzz-<target>-crash-...) is replayed through its target
+        let base = std::path::Path::new(file).file_name().map(|x| x.to_string_lossy().to_string()).unwrap_or_default();
+        if let Some(rest) = base.strip_prefix("fuzz-") {
+            let target = if rest.starts_with("parse_text") { "parse_text" } else { "exec_program" };
+            match fuzzrun::replay_artifact(target, file) {
+                Ok(()) => {
+                    exec::say(&format!("replay: fuzz artifact no longer crashes {}", target));
+                    std::process::exit(0);
+                }
+                Err(f) => {
+                    exec::say(&format!("replay: {} :: {}", f.signature, f.detail));
+                    exec::say(&format!("VIOLATION property={} replay={}", prop, file));
+                    std::process::exit(1);
+                }
+            }
+        }
         let txt = std::fs::read_to_string(file).expect("read replay file");
         let v: Value = serde_json::from_str(&txt).expect("replay json");
         let ctx = Ctx { prop: prop.clone(), tier: Tier::Quick, seed, threads, known: Arc::new(BTreeSet::new()) };
